@@ -1,0 +1,25 @@
+//go:build verif
+
+package lachesis
+
+// Machine-checked contracts for /verif (read as text by the VC generator; no code).
+//
+// Record of the block callbacks (what the application observes):
+//   gBlkN: number of BeginBlock calls; gBlkAtropos / gBlkCheaters: the block handed to the most recent one
+//@ ghost gBlkN int
+//@ ghost gBlkAtropos hash.Event
+//@ ghost gBlkCheaters Cheaters
+//@ ghost gEndN int
+//@
+//@ funcfield ConsensusCallbacks.BeginBlock
+//@   params block
+//@   requires block != nil
+//@   modifies gBlkN, gBlkAtropos, gBlkCheaters
+//@   ghost gBlkN = old(gBlkN) + 1
+//@   ghost gBlkAtropos = block.Atropos
+//@   ghost gBlkCheaters = block.Cheaters
+//@ // EndBlock may return the validator set of the next epoch (assumed well-formed and non-empty)
+//@ funcfield BlockCallbacks.EndBlock
+//@   modifies gEndN
+//@   ghost gEndN = old(gEndN) + 1
+//@   ensures result != nil ==> valid(result) && len(result.values) >= 1
